@@ -969,8 +969,11 @@ def rfc_header_strict(data, start, hcl):
     if not first & 0x80:
         if not first & 0x40 or hcl < 0 or p + hcl > n:
             return None
+        # RFC 9000 section 10.3: with the AEADs defined for QUIC a short-header packet of fewer than 21 bytes is never valid;
+        # an endpoint may (must, once it tries to remove protection) discard it.  The property allows a decoder either to
+        # return the header or to raise its documented parse error on such input: "optional" marks that class.
         return {"version": None, "ptype": 5, "dcid": data[p:p + hcl], "scid": b"", "token": b"", "tag": b"", "versions": [],
-                "hdr_end": p + hcl, "pkt_end": n}
+                "hdr_end": p + hcl, "pkt_end": n, "optional": n - start < 21}
     if p + 4 > n:
         return None
     version = int.from_bytes(data[p:p + 4], "big")
@@ -1042,12 +1045,14 @@ def _real_walk(data, hcl):
     return bounds, status
 
 
-def _rfc_walk(data, hcl):
+def _rfc_walk(data, hcl, reject_optional=False):
     """the same walk with the strict RFC reader only"""
     pos, bounds = 0, []
     while pos < len(data):
         r = rfc_header_strict(data, pos, hcl)
         if r is None:
+            return bounds, "drop"
+        if r.get("optional") and reject_optional:
             return bounds, "drop"
         bounds.append((pos, r["pkt_end"]))
         pos = r["pkt_end"]
@@ -1134,7 +1139,7 @@ def hat_oracle(case):
         try:
             h = packet.pull_quic_header(b, host_cid_length=hcl)
         except ValueError:
-            if ref is not None:
+            if ref is not None and not ref.get("optional"):
                 return ("pull_quic_header at offset %d rejects a well-formed packet that lies inside the datagram" % start,
                         {"codec": "header", "rule": "spurious_error_at_offset"})
             return None
@@ -1186,7 +1191,8 @@ def hat_oracle(case):
                 return ("receive walk: boundaries not consecutive / not inside the datagram: %r" % (bounds,), {"codec": "header", "rule": "walk_chain"})
             pos = e
         rb, rs = _rfc_walk(data, hcl)
-        if (bounds, status == 0) != (rb, rs == "eof"):
+        rb2, rs2 = _rfc_walk(data, hcl, reject_optional=True)      # a decoder that discards too-small short-header packets
+        if (bounds, status == 0) != (rb, rs == "eof") and (bounds, status == 0) != (rb2, rs2 == "eof"):
             return ("receive walk differs from the strict RFC walk: %r %r vs %r %r" % (bounds, status, rb, rs), {"codec": "header", "rule": "walk_rfc"})
         if sent is not None:
             want, pos = [], 0
